@@ -246,6 +246,44 @@ def fstring_sentences(ctx):
                         break
 
 
+def name_sentences(ctx):
+    """identifiers from every part of the code space: for every block of 0x800 code points the first and the last character that may start an identifier
+    and the first and last that may only continue one (str.isidentifier of the running interpreter, the test parso itself applies after its Name regex):
+    `<name> = 1` is accepted strictly and holds exactly one name leaf with that spelling, as target and as call argument"""
+    import parso
+    vs = streams.versions()
+    names = []
+    for blk in range(0, 0x110000, 0x800):
+        starts = [cp for cp in range(blk, blk + 0x800) if not 0xD800 <= cp <= 0xDFFF and chr(cp).isidentifier()]
+        conts = [cp for cp in range(blk, blk + 0x800) if not 0xD800 <= cp <= 0xDFFF and not chr(cp).isidentifier() and ('a' + chr(cp)).isidentifier()]
+        for cps, mk in ((starts, lambda c: c), (starts, lambda c: 'v' + c + 'w'), (conts, lambda c: 'a' + c)):
+            for cp in ([cps[0], cps[-1]] if len(cps) > 1 else cps):
+                names.append(mk(chr(cp)))
+    import unicodedata
+    for k, nm in enumerate(dict.fromkeys(names)):
+        if unicodedata.normalize('NFKC', nm) != nm and not unicodedata.normalize('NFKC', nm).isidentifier():
+            continue
+        v = vs[(k + int(ctx.seed or 0)) % len(vs)]
+        g = parso.load_grammar(version=v)
+        code = '%s = f(%s)\n' % (nm, nm)
+        ctx.count('c06-names')
+        sig = None
+        try:
+            m = g.parse(code, error_recovery=False)
+            leaves = [l for l in preds.iter_nodes(m) if l.type == 'name']
+            if [l.value for l in leaves] != [nm, 'f', nm]:
+                sig = 'C06:name-sentence-wrong-tree'
+        except parso.ParserSyntaxError:
+            sig = 'C06:name-sentence-rejected'
+        except Exception as e:
+            sig = preds.crash_sig(e)
+        if sig:
+            ctx.nontrivial(('c06-name', nm))
+            ctx.violation(sig + ':U+%04X' % max(map(ord, nm)), dict(kind='input', version=v, input_text=code, observed=sig))
+            break
+        ctx.nontrivial(('c06-name', nm))
+
+
 def run(ctx, b, drv):
     pend = base.Pending(ctx)
     ll1ok = base.obligations(ctx, b, pend, ['LL1.v', 'LL1Inst.v', 'LL1Engine.v', 'EngineSim.v', 'Engine.v', 'Properties/C06.v'] +
@@ -255,6 +293,7 @@ def run(ctx, b, drv):
     base.mismatches(ctx, pend, streams.run_parse(ctx, base.scale(ctx, 500), drv, stream='c06-text', kinds=['semantic', 'valid', 'fstrings', 'derived']), None)
     literal_sentences(ctx)
     fstring_sentences(ctx)
+    name_sentences(ctx)
     per = base.scale(ctx, 60) if ll1ok else base.scale(ctx, 3000)
     TY = ['STRING', 'NUMBER', 'NAME', 'ERRORTOKEN', 'NEWLINE', 'INDENT', 'DEDENT', 'ERROR_DEDENT', 'FSTRING_STRING', 'FSTRING_START',
           'FSTRING_END', 'OP', 'ENDMARKER']
